@@ -175,6 +175,7 @@ static void end_sequence(void)
 /* random model-based sequence */
 static void random_sequence(rng_t *r, int len, int maxdim, int dense_fill)
 {
+	int longlived = dense_fill == 2;    /* rare bulk operations, so that a cleared matrix is refilled beyond one block */
 	led_reset(); g_led_bad_free = 0;
 	int R = 1 + (int)rng_below(r, (uint32_t)maxdim), C = 1 + (int)rng_below(r, (uint32_t)maxdim);
 	/* b and c are at least as large as a so that every copy precondition can be met */
@@ -186,6 +187,7 @@ static void random_sequence(rng_t *r, int len, int maxdim, int dense_fill)
 		int k = (int)rng_below(r, NMAT); smat_t *s = &g_m[k];
 		unsigned op = rng_below(r, 100);
 		if (dense_fill && op < 70) op = op < 50 ? 0 : 45;
+		if (longlived && op >= 60 && rng_below(r, 40)) op = op < 85 ? 0 : 45;   /* bulk operations 40x rarer */
 		if (op < 40) m_insert(k, (int)rng_below(r, (uint32_t)s->R), (int)rng_below(r, (uint32_t)s->C));
 		else if (op < 60) m_delete(k, (int)rng_below(r, (uint32_t)s->R), (int)rng_below(r, (uint32_t)s->C));
 		else if (op < 64) m_clear(k);
@@ -198,7 +200,8 @@ static void random_sequence(rng_t *r, int len, int maxdim, int dense_fill)
 		else if (op < 92) { int b = 1 + (int)rng_below(r, 2); m_copy_filled(0, b); k = b; }
 		else if (op < 96) { int b = 1 + (int)rng_below(r, 2); m_roundtrip(0, b); k = b; }
 		else { int Rk = s->R, Ck = s->C; m_free(k); m_alloc(k, Rk, Ck); }
-		if (g_viol_total == viol0) check(&g_m[k], (step % 7) == 0 || step == len - 1);
+		/* long sequences: the O(size) walk runs every 16th step (every step for short ones), the full find() sweep more rarely */
+		if (g_viol_total == viol0 && (len <= 1000 || (step & 15) == 0 || step == len - 1)) check(&g_m[k], (step % (len > 1000 ? 400 : 7)) == 0 || step == len - 1);
 	}
 	if (g_viol_total == viol0) for (int k = 0; k < NMAT; k++) { g_lastop = "final-check"; check(&g_m[k], 1); }
 	end_sequence();
@@ -243,6 +246,25 @@ int p_c17(void)
 			for (int round = 0; round < 2; round++) { for (int i = 0; i < 40; i++) for (int j = 0; j < 40; j++) m_insert(0, i, (j * 7 + i) % 40); check(&g_m[0], 1); for (int i = 0; i < 40; i++) for (int j = 0; j < 40; j++) m_delete(0, (i * 3) % 40, j); check(&g_m[0], 1); }
 			end_sequence(); rep_case_done(1, 0, 1);
 		}
+		if (rep_case("scripted clear-then-refill beyond one allocation block (1024 entries)")) {
+			/* a partly used block, clear, then more inserts than one block holds: every recycled entry must be a free one */
+			led_reset(); m_alloc(0, 64, 64);
+			for (int i = 0; i < 64; i++) m_insert(0, i, i);
+			m_clear(0); check(&g_m[0], 1);
+			for (int x = 0; x < 1400; x++) { m_insert(0, (x * 37) % 64, (x * 37 / 64 * 5 + x) % 64); if (x == 1023 || x == 1024 || x == 1100) check(&g_m[0], 1); }
+			check(&g_m[0], 1);
+			m_clear(0); for (int x = 0; x < 1100; x++) m_insert(0, x % 64, (x / 64 * 3 + x) % 64); check(&g_m[0], 1);
+			end_sequence(); rep_case_done(1, 0, 1);
+		}
+		if (rep_case("scripted copy into a used destination, then grow it beyond one allocation block")) {
+			led_reset(); m_alloc(0, 64, 64); m_alloc(1, 64, 64);
+			for (int i = 0; i < 200; i++) m_insert(1, i % 64, (i * 7) % 64);
+			for (int i = 0; i < 1300; i++) m_insert(0, i % 64, (i / 64 * 3 + i) % 64);
+			m_copy(0, 1); check(&g_m[1], 1);
+			for (int i = 0; i < 900; i++) m_insert(1, (i * 11) % 64, (i * 13 + i / 64) % 64);
+			check(&g_m[1], 1); check(&g_m[0], 1);
+			end_sequence(); rep_case_done(1, 0, 1);
+		}
 		if (rep_case("scripted copy into a non-empty destination")) { led_reset(); m_alloc(0, 3, 4); m_alloc(1, 4, 5); for (int i = 0; i < 12; i++) m_insert(1, i % 4, i % 5); m_insert(0, 1, 2); m_insert(0, 2, 3); m_copy(0, 1); check(&g_m[1], 1); m_insert(1, 3, 4); m_insert(1, 0, 0); check(&g_m[1], 1); end_sequence(); rep_case_done(1, 0, 1); }
 	}
 	unit++;
@@ -267,8 +289,8 @@ int p_c17(void)
 		if (!rep_unit_mine(unit)) continue;
 		rng_t r = rng_make(g_run.seed, 1700 + (uint64_t)u, 17);
 		for (long s = 0; s < per; s++) {
-			int big = (s % 40) == 39;       /* beyond one 1024-entry block: block chaining and the free list */
-			int len = big ? 1500 + (int)rng_below(&r, 1500) : 10 + (int)rng_below(&r, 390);
+			int big = (s % 40) == 39 ? 1 : (s % 40) == 19 ? 2 : 0;       /* beyond one 1024-entry block: block chaining and the free list */
+			int len = big == 2 ? 6000 + (int)rng_below(&r, 3000) : big ? 1500 + (int)rng_below(&r, 1500) : 10 + (int)rng_below(&r, 390);
 			int maxdim = big ? 70 : 1 + (int)rng_below(&r, 40);
 			if (!rep_case("random-sequence len=%d maxdim=%d dense_fill=%d index=%ld", len, maxdim, big, s)) { rng_t skip = rng_make(rng_u64(&r), 1, 1); (void)skip; continue; }
 			rng_t rr = rng_make(rng_u64(&r), (uint64_t)s, (uint64_t)u);
